@@ -416,3 +416,94 @@ Proof.
   - rewrite Ht. apply parse_u32_digits; [assumption|assumption|split; assumption].
   - eexists; exact H0.
 Qed.
+
+(* ---- the converse: a documented-regex match AT OFFSET 0 is a reference for Breadlog ------ *)
+
+(* the matcher only ever answers through its continuation *)
+Lemma rep_m_result ma k mn mx g :
+  (forall k' s c, ma k' s = Some c -> exists s', k' s' = Some c) ->
+  forall fuel n s c, rep_m ma k mn mx g fuel n s = Some c -> exists s', k s' = Some c.
+Proof.
+  intros Hma. induction fuel as [|f0 fuel IH]; intros n s c H.
+  - cbn [rep_m] in H. destruct g.
+    + destruct (mn <=? n); [eexists; exact H|discriminate].
+    + destruct (mn <=? n); [|discriminate]. destruct (k s) eqn:Hk; [|discriminate].
+      exists s. congruence.
+  - cbn [rep_m] in H.
+    assert (Hmore : forall c',
+      (if match mx with Some x => n <? x | None => true end
+       then ma (fun s' => if ridx s <? ridx s' then rep_m ma k mn mx g fuel (n + 1) s' else None) s
+       else None) = Some c' -> exists s', k s' = Some c').
+    { intros c' Hc'. destruct (match mx with Some x => n <? x | None => true end); [|discriminate].
+      apply Hma in Hc' as (s1 & Hs1). destruct (ridx s <? ridx s1); [|discriminate].
+      eapply IH; exact Hs1. }
+    assert (Hstop : forall c', (if mn <=? n then k s else None) = Some c' -> exists s', k s' = Some c').
+    { intros c' Hc'. destruct (mn <=? n); [eexists; exact Hc'|discriminate]. }
+    destruct g.
+    + destruct (if match mx with Some x => n <? x | None => true end then _ else None) as [c1|] eqn:E1.
+      * injection H as <-. apply Hmore. reflexivity.
+      * apply Hstop. exact H.
+    + destruct (if mn <=? n then k s else None) as [c1|] eqn:E1.
+      * injection H as <-. apply Hstop. reflexivity.
+      * apply Hmore. exact H.
+Qed.
+
+Lemma m_result r : forall k s c, m r k s = Some c -> exists s', k s' = Some c.
+Proof.
+  induction r as [|l|rs| | |mn mx g a IH|i a IH|a IHa b IHb|a IHa b IHb]; intros k s c H; cbn [m] in H.
+  - eexists; exact H.
+  - destruct (strip_prefix l (rrem s)); [eexists; exact H|discriminate].
+  - destruct (rrem s) as [|c0 t]; [discriminate|]. destruct (in_ranges rs c0); [eexists; exact H|discriminate].
+  - destruct (ridx s =? 0); [eexists; exact H|discriminate].
+  - destruct (rrem s); [eexists; exact H|discriminate].
+  - eapply rep_m_result; [exact IH|exact H].
+  - apply IH in H as (s1 & H1). eexists; exact H1.
+  - apply IHa in H as (s1 & H1). apply IHb in H1. exact H1.
+  - destruct (m a k s) as [c1|] eqn:E.
+    + injection H as <-. eapply IHa; exact E.
+    + eapply IHb; exact H.
+Qed.
+
+Lemma get_set_cap0 cs v : get_cap (set_cap cs 0 v) 0 = Some v.
+Proof.
+  induction cs as [|[j w] cs IH]; cbn [set_cap get_cap].
+  - reflexivity.
+  - destruct (j =? 0) eqn:E; cbn [get_cap]; [reflexivity|rewrite E; exact IH].
+Qed.
+
+(* group 0 of a match found by the search from idx starts at or after idx *)
+Lemma search_from_start r : forall t idx c,
+  search_from r t idx = Some c -> exists i e, get_cap c 0 = Some (i, e) /\ idx <= i.
+Proof.
+  induction t as [|c0 t IH]; intros idx c H; cbn [search_from] in H.
+  - destruct (m r _ _) as [c1|] eqn:E; [|discriminate]. injection H as <-.
+    apply m_result in E as (s1 & E). injection E as <-.
+    exists idx, (ridx s1). split; [apply get_set_cap0|lia].
+  - destruct (m r _ _) as [c1|] eqn:E.
+    + injection H as <-. apply m_result in E as (s1 & E). injection E as <-.
+      exists idx, (ridx s1). split; [apply get_set_cap0|lia].
+    + apply IH in H as (i & e & Hg & Hi). exists i, e. split; [exact Hg|lia].
+Qed.
+
+(* an unanchored match whose group 0 starts at 0 is the anchored match *)
+Lemma captures_at_zero r t c e :
+  captures r t = Some c -> get_cap c 0 = Some (0, e) ->
+  captures (RCat RStart r) t = Some c.
+Proof.
+  unfold captures. intros H H0. rewrite search_from_anchored, m_cat, m_start.
+  cbn [ridx]. change (0 =? 0) with true. cbv iota.
+  destruct t as [|c0 t]; cbn [search_from] in H.
+  - destruct (m r _ _) as [c1|]; [exact H|discriminate].
+  - destruct (m r _ _) as [c1|]; [exact H|].
+    apply search_from_start in H as (i & e' & Hg & Hi). rewrite Hg in H0. injection H0 as -> _. lia.
+Qed.
+
+Theorem documented_regex_converse s c se e n :
+  captures re_documented s = Some c -> get_cap c 0 = Some (0, e) ->
+  get_cap c 1 = Some se -> parse_u32 (cap_text s se) = Some n ->
+  extract_reference the_params s = Some n.
+Proof.
+  intros Hc H0 H1 Hp. unfold extract_reference. cbn [p_ref_re the_params].
+  change re_LOG_REF_PATTERN with (RCat RStart re_documented).
+  rewrite (captures_at_zero _ _ _ _ Hc H0), H1. exact Hp.
+Qed.
